@@ -42,10 +42,10 @@ UCV1 == {"c1", "c3", "c5"}
 UCYss == {"c1", "c4"}
 
 AllOps == {"list", "signers", "sign", "add", "addhard", "remove", "removeall", "lock", "unlock",
-           "close", "forward", "fwdbig", "fstorm", "dremove", "dadd", "dlock", "tick", "signersuse", "new", "extension"}
-OpsNoLock == AllOps \ {"extension", "fwdbig", "fstorm", "lock", "unlock", "dlock", "close", "forward", "signersuse", "new"}
-OpsLock   == AllOps \ {"extension", "fwdbig", "tick", "forward", "dremove", "dadd", "signersuse", "new"}
-OpsFault  == AllOps \ {"extension", "fwdbig", "fstorm", "tick", "dlock", "dremove", "dadd", "signersuse"}
-OpsMC     == AllOps \ {"extension", "fwdbig", "signersuse", "new"}
+           "close", "forward", "fwdbig", "fstorm", "lockrace", "lockrace2", "dremove", "dadd", "dlock", "tick", "signersuse", "new", "extension"}
+OpsNoLock == AllOps \ {"extension", "lockrace", "lockrace2", "fwdbig", "fstorm", "lock", "unlock", "dlock", "close", "forward", "signersuse", "new"}
+OpsLock   == AllOps \ {"extension", "lockrace", "lockrace2", "fwdbig", "tick", "forward", "dremove", "dadd", "signersuse", "new"}
+OpsFault  == AllOps \ {"extension", "lockrace", "lockrace2", "fwdbig", "fstorm", "tick", "dlock", "dremove", "dadd", "signersuse"}
+OpsMC     == AllOps \ {"extension", "lockrace", "lockrace2", "fwdbig", "signersuse", "new"}
 
 =============================================================================
